@@ -3,6 +3,7 @@ package yubiagent
 //vsym:pkg github.com/theparanoids/ysshra/agent/yubiagent
 //vsym:entry H12_read
 //vsym:entry H12_serve
+//vsym:entry H12_limits
 //vsym:model (*golang.org/x/crypto/ssh/agent.server).processRequestBytes m12Process
 //vsym:model golang.org/x/crypto/ssh.ParsePublicKey m12ParsePublicKey
 //vsym:model golang.org/x/crypto/ssh.Unmarshal m12SSHUnmarshal
@@ -10,9 +11,10 @@ package yubiagent
 //vsym:model encoding/pem.EncodeToMemory m12PEMEncode
 //vsym:replay same-harness
 //vsym:max-len 4
-//vsym:expect-cover C12.read.eof C12.read.too-large C12.read.data C12.read.short C12.serve.clean-eof C12.serve.error C12.serve.answered
+//vsym:expect-cover C12.limits C12.read.eof C12.read.too-large C12.read.data C12.read.short C12.serve.clean-eof C12.serve.error C12.serve.answered
 //vsym:bound H12_read: any 4 length bytes (declared length 0..2^32-1), 0..4 body bytes available, optional short reads of 1 byte, EOF anywhere; allocation lengths are restricted to <= 4 after the 16 MiB obligation
 //vsym:bound H12_serve: 0..2 frames (thorough 0..3) of 0..3 (thorough 0..5) symbolic bytes each followed by a clean EOF or a truncated frame; the served YubiAgent returns arbitrary results/errors
+//vsym:bound H12_limits: frames of exactly 16 MiB and 16 MiB + 1 bytes (concrete zero bytes): what read accepts, write must be able to re-frame for the forwarder
 //vsym:assume writes to the connection succeed (the quantifier is the peer's byte stream); x/crypto's request decoding (processRequestBytes, ParsePublicKey, ssh.Unmarshal/Marshal) and pem.EncodeToMemory are modelled as arbitrary results; agent.ServeAgent's own loop is executed from source
 
 import (
@@ -289,4 +291,52 @@ func H12_serve() {
 			writes++
 		}
 	}
+}
+
+// counting writer: keeps only the lengths
+type m12Count struct{ n int }
+
+func (c *m12Count) Write(p []byte) (int, error) { c.n += len(p); return len(p), nil }
+
+type m12Zeros struct {
+	hdr  []byte
+	pos  int
+	body int
+}
+
+func (z *m12Zeros) Read(p []byte) (int, error) {
+	if z.pos < len(z.hdr) {
+		n := copy(p, z.hdr[z.pos:])
+		z.pos += n
+		return n, nil
+	}
+	if z.body <= 0 {
+		return 0, io.EOF
+	}
+	n := len(p)
+	if n > z.body {
+		n = z.body
+	}
+	z.body -= n
+	return n, nil // p is left as it is (zero bytes)
+}
+
+func H12_limits() {
+	const lim = 16 << 20
+	which := vChoose(2, "size")
+	n := lim + which // exactly the limit, or one more
+	// read: a frame declared with exactly 16 MiB is accepted, one more is refused before allocating
+	vAllocWatch()
+	hdr := []byte{byte(n >> 24), byte(n >> 16), byte(n >> 8), byte(n)}
+	data, rerr := read(&m12Zeros{hdr: hdr, body: n})
+	if which == 0 {
+		vAssert(rerr == nil && len(data) == lim, "C12.read-accepts-a-frame-of-exactly-16MiB")
+		// … and such a request can be re-framed for the forwarded agent protocol
+		w := &m12Count{}
+		werr := write(w, data)
+		vAssert(werr == nil && w.n == lim+4, "C12.write-can-frame-whatever-read-accepts")
+	} else {
+		vAssert(rerr != nil && data == nil, "C12.read-refuses-frames-above-16MiB")
+	}
+	vReach("C12.limits")
 }
